@@ -165,6 +165,13 @@ def agent_level(chk, prop, ncases, only=None):
             ran = [int(o.split()[1]) - 1000 for o in (r.get("ops") or []) if o.startswith("rel ") and int(o.split()[1]) >= 1000]
             ov = (r["final"].get("live") or {}).get("ov")
             idx = {"finished": 0, "failed": 1, "canceled": 2}.get(ov)
+            # "succeeded iff every step finished successfully or was skipped" on the agent's own final answer (these runs
+            # are never stopped): a run reported finished has no step labelled failed / canceled / left unfinished
+            bad = [(i, s) for i, s in enumerate((r["final"].get("live") or {}).get("st") or []) if s not in ("finished", "skipped")]
+            if ov == "finished" and bad:
+                chk.violation("C04:agent-run:reported-succeeded-although-a-step-did-not-succeed",
+                              "run reported finished under the real agent (handlers run %r) although steps %r are not finished/skipped" % (ran, bad),
+                              {"agent_case": dict(c, ops=r.get("ops"))})
             if idx is not None:
                 plan = [h for h in (idx, 3) if c["handlers"][h] != 0]
                 if ran != plan:
@@ -263,7 +270,12 @@ def run(chk, replay):
     chk.assumptions = ["kill instants: every quiescent point of the in-process agent (the persisted file is whatever the agent wrote last), plus real SIGKILLs of "
                        "`blackdagger start` at PRNG delays; system-call-boundary kills of start-up/shutdown are covered for the history file by C07",
                        "step-level labels of a killed run (a step left 'running' in the record) are not constrained by the property; only the DAG-level report is"]
-    common.lean_obligations(chk, "BdModel/Props/C08.lean", {"Sched": TIE_SCHED, "Agent": tie_names("Agent")}, extra_targets=["BdModel.Sched.Tables"])
+    common.lean_obligations(chk, "BdModel/Props/C08.lean", {"Sched": TIE_SCHED, "Agent": tie_names("Agent"), "Hist": None}, extra_targets=["BdModel.Sched.Tables"])
+    import hist as _hist
+    if replay and "hist_case" in json.load(open(replay)).get("case", {}):
+        _hist.replay_big_record(chk, "C08", "once the run's process has ended the reported status is the final state it persisted: the status reports read it back from the store", json.load(open(replay))["case"]["hist_case"]); return
+    if not replay:
+        _hist.big_record_leg(chk, "C08", "once the run's process has ended the reported status is the final state it persisted: the status reports read it back from the store")
     binp, out = common.build_harness("agentrun")
     if not binp:
         chk.oblige("harness-build:agentrun", False, out[-3000:]); return
